@@ -1192,9 +1192,182 @@ func part3(c *Ctx, im *Impl, cf *CaseFile, tmp string) {
 	}
 }
 
+// ---------- part 4: release against concurrent by-ID requests ----------
+//
+// "a successful release removes the unit and its files so that it is no longer known": units whose
+// directory holds a thousand or two small files (so that RemoveAll takes tens of milliseconds) are
+// released by one client while other sessions keep asking for that unit by ID (work status <id>,
+// JSON work list with unitid).  After a "released" reply the unit must be unknown to status, absent
+// from list, its directory gone - at once and still 200 ms later; a release that fails must leave
+// the unit fully known.
+
+type hammerObs struct {
+	T0, T1 time.Time
+	Op     string
+	Reply  string
+	Err    error
+}
+
+func hammer(n *Node, unit string, which int, stop <-chan struct{}, out *[]hammerObs, mu *sync.Mutex) {
+	c, err := DialCtl(n.Sock, tmo)
+	if err != nil {
+		return
+	}
+	defer c.Close()
+	cmds := []string{
+		fmt.Sprintf(`{"command":"work","subcommand":"status","unitid":%q}`, unit),
+		fmt.Sprintf(`{"command":"work","subcommand":"list","unitid":%q}`, unit),
+	}
+	for i := which; ; i++ {
+		select {
+		case <-stop:
+			return
+		default:
+		}
+		o := hammerObs{T0: time.Now(), Op: []string{"status", "list-by-id"}[i%2]}
+		o.Reply, o.Err = c.Cmd(cmds[i%2], tmo)
+		o.T1 = time.Now()
+		mu.Lock()
+		*out = append(*out, o)
+		mu.Unlock()
+		if o.Err != nil {
+			return
+		}
+	}
+}
+
+func releaseUnderLookups(c *Ctx, im *Impl, n *Node, round int) {
+	unknown := func(s string) bool { return strings.Contains(s, "unknown work unit") }
+	unit, _, err := Submit(n.Sock, map[string]interface{}{"worktype": "sh", "params": shQuote("echo done; exit 0")}, []byte("x"), tmo)
+	if err != nil {
+		im.Violate("submit failed: "+err.Error(), "c13-submit-failed", nil)
+		return
+	}
+	if _, _, _, ok := waitDisk(n, unit, 5*time.Second, func(st int, det string, pid int) bool { return st == 2 }); !ok {
+		im.Hist("release-race:unit-did-not-finish")
+		return
+	}
+	time.Sleep(150 * time.Millisecond) // the daemon's waiter goroutine and monitor are done
+	nfiles := 1000 + c.Rng.Intn(1000)
+	bulk := filepath.Join(n.UnitDir(unit), "bulk")
+	Must(os.MkdirAll(bulk, 0o700))
+	for i := 0; i < nfiles; i++ {
+		Must(os.WriteFile(filepath.Join(bulk, fmt.Sprintf("f%04d", i)), []byte("x"), 0o600))
+	}
+	force := round%3 == 2
+	sub := "release"
+	if force {
+		sub = "force-release"
+	}
+	ctx := map[string]interface{}{"scenario": "work " + sub + " of a finished unit with many files while other sessions ask for the unit by ID", "unit": unit, "files": nfiles}
+	var obs []hammerObs
+	var mu sync.Mutex
+	stop := make(chan struct{})
+	var wg sync.WaitGroup
+	nh := 2 + round%2
+	for h := 0; h < nh; h++ {
+		wg.Add(1)
+		go func(h int) { defer wg.Done(); hammer(n, unit, h, stop, &obs, &mu) }(h)
+	}
+	time.Sleep(15 * time.Millisecond)
+	t0 := time.Now()
+	reply, rerr := OneShot(n.Sock, map[string]interface{}{"command": "work", "subcommand": sub, "unitid": unit}, 30*time.Second)
+	t1 := time.Now()
+	time.Sleep(30 * time.Millisecond)
+	close(stop)
+	wg.Wait()
+	during := 0
+	for _, o := range obs {
+		if o.T1.After(t0) && o.T0.Before(t1) {
+			during++
+		}
+	}
+	ctx["release_reply"], ctx["release_ms"], ctx["lookups_during_release"] = reply, t1.Sub(t0).Milliseconds(), during
+	im.Hist(fmt.Sprintf("release-race:lookups-during-release>=%d", map[bool]int{true: 5, false: 0}[during >= 5]))
+	check := func(when string) {
+		if l, err := OneShot(n.Sock, map[string]interface{}{"command": "work", "subcommand": "status", "unitid": unit}, tmo); err != nil || !unknown(l) {
+			im.Violate(fmt.Sprintf("unit %s: work status %s after the \"released\" reply answers %q %v", unit, when, l, err), "c13-known-after-release", ctx)
+		}
+		if m, err := WorkList(n.Sock, tmo); err == nil {
+			if _, ok := m[unit]; ok {
+				im.Violate(fmt.Sprintf("unit %s is in work list %s after the \"released\" reply", unit, when), "c13-known-after-release", ctx)
+			}
+		}
+		if _, err := os.Stat(n.UnitDir(unit)); err == nil {
+			im.Violate(fmt.Sprintf("unit %s: directory exists %s after the \"released\" reply", unit, when), "c13-release-leaves-directory", ctx)
+		}
+	}
+	switch {
+	case rerr != nil:
+		im.Violate(fmt.Sprintf("unit %s: %s got no reply: %v", unit, sub, rerr), "c13-no-reply", ctx)
+	case strings.Contains(reply, `"released"`):
+		im.Hist("release-race:released")
+		check("right")
+		for _, o := range obs {
+			if o.Err == nil && o.T0.After(t1) && !unknown(o.Reply) {
+				im.Violate(fmt.Sprintf("unit %s: %s sent after the \"released\" reply answers %q", unit, o.Op, o.Reply), "c13-known-after-release", ctx)
+				break
+			}
+		}
+		time.Sleep(200 * time.Millisecond)
+		check("200 ms")
+	default:
+		// the release failed: the unit must still be there, whole
+		im.Hist("release-race:release-failed")
+		l, err := OneShot(n.Sock, map[string]interface{}{"command": "work", "subcommand": "status", "unitid": unit}, tmo)
+		_, serr := os.Stat(filepath.Join(n.UnitDir(unit), "status"))
+		if err != nil || unknown(l) || serr != nil {
+			im.Violate(fmt.Sprintf("unit %s: %s failed (%q) but the unit is not fully known any more (status: %q, status file: %v)", unit, sub, reply, l, serr), "c13-failed-release-forgets-unit", ctx)
+		} else {
+			im.Violate(fmt.Sprintf("unit %s: %s of a finished unit failed: %q", unit, sub, reply), "c13-release-reply", ctx)
+		}
+	}
+	for _, o := range obs {
+		if o.Err != nil {
+			im.Violate(fmt.Sprintf("unit %s: %s during the release got no reply: %v", unit, o.Op, o.Err), "c13-no-reply", ctx)
+			break
+		}
+	}
+	im.Count(fmt.Sprintf("release-race %s %d %d", unit, nfiles, during), during >= 5)
+	if round == 0 {
+		im.Sample(ctx)
+	}
+}
+
+func part4(c *Ctx, im *Impl, tmp string) {
+	n := newNode(c, filepath.Join(tmp, "n3"), "n3")
+	Must(n.Start())
+	defer func() { n.Stop(); n.KillStrays() }()
+	rounds := 10
+	if c.Thorough() {
+		rounds = 120
+	}
+	for i := 0; i < rounds; i++ {
+		releaseUnderLookups(c, im, n, i)
+	}
+	if !n.Alive() {
+		im.Violate("the daemon died during releases: "+n.ExitState(), "c13-daemon-died", nil)
+	}
+}
+
+func mergeImpl(im, im2 *Impl) {
+	im.Evaluations += im2.Evaluations
+	for k := range im2.Distinct {
+		if !im.Distinct[k] {
+			im.Distinct[k] = true
+			im.NonTrivial++
+		}
+	}
+	for k, v := range im2.Histogram {
+		im.Histogram[k] += v
+	}
+	im.Violations = append(im.Violations, im2.Violations...)
+	im.Samples = append(im.Samples, im2.Samples...)
+}
+
 func runC13(c *Ctx) {
 	im := NewImpl("C13", c.Seed, c.Tier)
-	im.Rule = "histories: per unit a bash script of 1-4 echo/sleep steps (0-1.3 s, exit 0 or 1-5, 20% with stdin held open) and 1-4 concurrent clients with 1-6 timed commands each (status, list, cancel, release, force-release, results, the same on unknown IDs, and again after the unit's horizon), 8-10 units at a time; non-trivial = daemon AND runner wrote the status record and at least one client command was answered. races: runner stopped/continued around cancel; daemon restart with a live runner. ids: 1-6 concurrent AllocateUnit calls on a scripted candidate stream with collisions against the index, stray directories and directories of failed allocations; non-trivial = at least 2 concurrent allocations or a colliding candidate. distinct by full spec + status-write sequence."
+	im.Rule = "histories: per unit a bash script of 1-4 echo/sleep steps (0-1.3 s, exit 0 or 1-5, 20% with stdin held open) and 1-4 concurrent clients with 1-6 timed commands each (status, list, cancel, release, force-release, results, the same on unknown IDs, and again after the unit's horizon), 8-10 units at a time; non-trivial = daemon AND runner wrote the status record and at least one client command was answered. races: runner stopped/continued around cancel; daemon restart with a live runner. release under lookups: finished units with 1000-2000 extra files are released (every third by force-release) while 2-3 sessions ask for the unit by ID (work status, JSON work list with unitid); non-trivial = at least 5 such requests overlapped the release. ids: 1-6 concurrent AllocateUnit calls on a scripted candidate stream with collisions against the index, stray directories and directories of failed allocations; non-trivial = at least 2 concurrent allocations or a colliding candidate. distinct by full spec + status-write sequence."
 	cf := &CaseFile{Dir: c.Out, Prop: "C13", Imports: []string{"Model.WorkLife"}, CaseType: "wl_case", CheckFn: "wl_check", PerShard: 60}
 	tmp, err := os.MkdirTemp("", "c13-")
 	Must(err)
@@ -1208,6 +1381,8 @@ func runC13(c *Ctx) {
 	im2 := NewImpl("C13", c.Seed, c.Tier)
 	cf2 := &CaseFile{}
 	var wg sync.WaitGroup
+	im4 := NewImpl("C13", c.Seed, c.Tier)
+	part4(c, im4, tmp) // uses c.Rng: before the concurrent parts
 	wg.Add(1)
 	go func() { defer wg.Done(); part2(c, im2, cf2, tmp) }()
 	part1(c, im, cf, tmp)
@@ -1215,18 +1390,8 @@ func runC13(c *Ctx) {
 	for i := range cf2.Cases {
 		cf.Add(cf2.Cases[i], cf2.Labels[i])
 	}
-	im.Evaluations += im2.Evaluations
-	for k := range im2.Distinct {
-		if !im.Distinct[k] {
-			im.Distinct[k] = true
-			im.NonTrivial++
-		}
-	}
-	for k, v := range im2.Histogram {
-		im.Histogram[k] += v
-	}
-	im.Violations = append(im.Violations, im2.Violations...)
-	im.Samples = append(im.Samples, im2.Samples...)
+	mergeImpl(im, im2)
+	mergeImpl(im, im4)
 	Must(cf.Write())
 	Must(im.Write(c.Out))
 }
